@@ -219,6 +219,15 @@ package netceptor
 //@ immutable BackendInfo.connectionCost, BackendInfo.nodeCost, BackendInfo.allowedPeers
 //@ immutable PacketConn.recvChan, PacketConn.s, PacketConn.localService
 
+// ---- lock order (C07 C17 C01): whenever a lock is taken while another is held, the pair is one of these; two
+// goroutines that both respect the order cannot wait for each other in a cycle.  Every acquisition in a function under
+// contract that happens with some lock possibly held is an obligation against this declaration.
+//@ order Netceptor.serviceAdsLock < Netceptor.connLock < Netceptor.sequenceLock
+//@ order Netceptor.connLock < connInfo.lastReceivedLock
+//@ order Netceptor.knownNodeLock < Netceptor.routingTableLock
+//@ order Netceptor.knownNodeLock < Netceptor.hashLock
+//@ order Netceptor.listenerLock < Netceptor.workCommandsLock
+
 //@ monitor (s *Netceptor) knownNodeLock
 //@   protects knownNodeInfo, knownConnectionCosts
 //@   inv KCC: s.knownConnectionCosts != nil && s.knownNodeInfo != nil && forall k string :: (k in s.knownConnectionCosts) ==> s.knownConnectionCosts[k] != nil
